@@ -1,6 +1,8 @@
 //! vh-driver: conformance harness for the `scylla` crate (built with --cfg scylla_verif).
 mod c02;
 mod c06;
+use c06 as c06_support;
+mod exec;
 mod c13;
 mod c15;
 mod c18;
@@ -36,6 +38,7 @@ fn main() {
         ("c02", "map") => c02::cmd_map(rest),
         ("c02", "exhaust") => c02::cmd_exhaust(rest),
         ("c02", "router") => c02::cmd_router(rest),
+        ("exec", "run") => exec::cmd_run(rest),
         ("c06", "walk") => c06::cmd_walk(rest),
         ("c13", "run") => c13::cmd_run(rest),
         ("c15", "walk") => c15::cmd_walk(rest),
